@@ -150,7 +150,7 @@ func runC04h(seed uint64, n int, outDir string, replay string) {
 				for _, e := range blk.OutboundEtxs() {
 					id := etxID(e)
 					cl := "S"
-					if types.IsCoinBaseTx(e) || types.IsConversionTx(e) {
+					if isCoinbaseEtx(e) || isConversionEtx(e) {
 						cl = "P"
 					}
 					if recs[id] != nil {
@@ -221,7 +221,7 @@ func checkTransit(o *h.Out, hr *hier, blk *types.WorkObject, rec *etxRec, got *t
 	if !same {
 		o.Violate("c04-etx-altered-in-transit", fmt.Sprintf("ETX %s arrives with other to / sender / gas / data / access list", rec.id))
 	}
-	if !types.IsConversionTx(e) {
+	if !isConversionEtx(e) {
 		if e.Value().Cmp(got.Value()) != 0 || e.EtxType() != got.EtxType() {
 			o.Violate("c04-etx-altered-in-transit", fmt.Sprintf("ETX %s (type %d, value %s) arrives as type %d, value %s", rec.id, e.EtxType(), e.Value(), got.EtxType(), got.Value()))
 		}
